@@ -927,8 +927,11 @@ def _lin_bin(b, r, depth):
 def length_guard_verdict(b, bb, index_op, len_op):
     """'ok' if a dominating test proves len >= index + 1, 'short' if comparable length tests exist
     but the strongest proves less, None if nothing comparable was found"""
-    I = linform(b, index_op)
-    L = linform(b, len_op)
+    return length_guard_verdict_forms(b, bb, linform(b, index_op), linform(b, len_op))
+
+
+def length_guard_verdict_forms(b, bb, I, L):
+    """same, on linear forms: I = index form, L = ({("len", root): 1}, 0)"""
     if I is None or L is None or len(L[0]) != 1 or L[1] != 0:
         return None
     latom = next(iter(L[0]))
